@@ -76,6 +76,8 @@ Inductive pe :=
 | PJoinE (body : pe) (s : pe)           (* pair.Join(s, func(a, b) { return <body> }) *)
 | PFromSeq (j : fscode) (s : se)
 | PFromSeqE (body : pe) (s : se)        (* pair.FromSeq(s, func(x) { (a, b) = (1000+x, x); return <body> }) *)
+| PWhen (p : ppcode) (s : pe)           (* if !p(a, b) { return nil }; return <s>  - a join function answering nil
+                                           for SOME elements and a nested expression for the others *)
 with se :=
 | SFrom (v : Z)                         (* seq.From(v) *)
 | SSlice (xs : list Z)                  (* seq.FromSlice(xs) *)
@@ -83,7 +85,8 @@ with se :=
 | SArgV                                 (* seq.From(b) *)
 | SShift (ys : list Z)                  (* seq.FromSlice([b + y | y <- ys]) *)
 | SToSeq (j : tscode) (s : pe)
-| SToSeqE (body : se) (s : pe).         (* pair.ToSeq(s, func(a, b) { return <body> }) *)
+| SToSeqE (body : se) (s : pe)          (* pair.ToSeq(s, func(a, b) { return <body> }) *)
+| SWhen (p : ppcode) (s : se).          (* if !p(a, b) { return nil }; return <s> *)
 
 (* ---------------------------------------------------------------- list semantics *)
 Fixpoint pden (a b : Z) (t : pe) : list (Z * Z) :=
@@ -99,6 +102,7 @@ Fixpoint pden (a b : Z) (t : pe) : list (Z * Z) :=
   | PJoinE body s => flat_map (fun kv => pden (fst kv) (snd kv) body) (pden a b s)
   | PFromSeq j s => flat_map (interp_fs j) (sden a b s)
   | PFromSeqE body s => flat_map (fun x => pden (1000 + x) x body) (sden a b s)
+  | PWhen p s => if interp_pp p (a, b) then pden a b s else []
   end
 with sden (a b : Z) (t : se) : list Z :=
   match t with
@@ -109,12 +113,13 @@ with sden (a b : Z) (t : se) : list Z :=
   | SShift ys => map (Z.add b) ys
   | SToSeq j s => flat_map (fun kv => interp_ts j (fst kv) (snd kv)) (pden a b s)
   | SToSeqE body s => flat_map (fun kv => sden (fst kv) (snd kv) body) (pden a b s)
+  | SWhen p s => if interp_pp p (a, b) then sden a b s else []
   end.
 
 Fixpoint psources (t : pe) : list (list Z) :=
   match t with
   | PFrom _ _ | PArg => []
-  | PTakeW _ s | PDropW _ s | PFilter _ s | PMap _ s | PJoin _ s => psources s
+  | PTakeW _ s | PDropW _ s | PFilter _ s | PMap _ s | PJoin _ s | PWhen _ s => psources s
   | PPlus l r => psources l ++ psources r
   | PJoinE body s => psources body ++ psources s
   | PFromSeq _ s => ssources s
@@ -126,6 +131,7 @@ with ssources (t : se) : list (list Z) :=
   | SFrom _ | SArgK | SArgV | SShift _ => []
   | SToSeq _ s => psources s
   | SToSeqE body s => ssources body ++ psources s
+  | SWhen _ s => ssources s
   end.
 
 (* pair.ForEach / seq.ForEach: (elements seen, returned error) required by the property *)
@@ -385,6 +391,7 @@ with pbuild (fuel : nat) (a b : Z) (t : pe) {struct fuel} : option pit :=
       | None => None
       | Some i => if is_snil i then Some PINil else fromseqc_loop n i (FSE body)
       end
+  | PWhen p s => if interp_pp p (a, b) then pbuild n a b s else Some PINil
   end end
 
 with sbuild (fuel : nat) (a b : Z) (t : se) {struct fuel} : option sit :=
@@ -405,6 +412,7 @@ with sbuild (fuel : nat) (a b : Z) (t : se) {struct fuel} : option sit :=
       | None => None
       | Some i => if is_pnil i then Some SINil else toseqc_loop n i (TSE body)
       end
+  | SWhen p s => if interp_pp p (a, b) then sbuild n a b s else Some SINil
   end end
 
 with pdropw_loop (fuel : nat) (p : ppcode) (i : pit) {struct fuel} : option pit :=
